@@ -50,8 +50,9 @@ type source struct {
 	sticky    bool // a source that broke stays broken: every later Read and the Close of its handles fail too
 	fired     bool
 	gating    bool
-	postGate  bool // with gating: every Read parks a second time after it has filled the caller's buffer
-	short     int  // > 0: a Read returns at most this many bytes (a short read, which io.Reader allows, is not the end)
+	postGate  bool               // with gating: every Read parks a second time after it has filled the caller's buffer
+	short     int                // > 0: a Read returns at most this many bytes (a short read, which io.Reader allows, is not the end)
+	seekFails bool               // the source's handles have a Seek method, and it fails (a forward-only stream)
 	arrivals  chan chan struct{} // each gated Read sends its release channel
 	inFlight  int
 	maxFlight int
@@ -134,6 +135,9 @@ func (f *srcFile) Close() error {
 }
 
 func (f *srcFile) Seek(off int64, whence int) (int64, error) {
+	if f.s.seekFails {
+		return 0, &hackpadfs.PathError{Op: "seek", Path: "?", Err: errSource}
+	}
 	return hackpadfs.SeekFile(f.File, off, whence)
 }
 
@@ -158,6 +162,8 @@ type Case struct {
 	BrokenReopens int `json:"broken_reopens,omitempty"`
 	// Short: the source's reads return at most this many bytes each (0 = as many as asked)
 	Short int `json:"short,omitempty"`
+	// SeekFails: the source's handles cannot be rewound (their Seek fails with an ordinary error)
+	SeekFails bool `json:"seek_fails,omitempty"`
 }
 
 type env struct {
@@ -180,7 +186,7 @@ func newEnv(c Case) *env {
 		must(inner.MkdirAll("d/e", 0o755))
 	}
 	must(hackpadfs.WriteFullFile(inner, c.Name, e.want, 0o644))
-	e.src = &source{inner: inner, noSeek: c.NoSeek, short: c.Short, arrivals: make(chan chan struct{}, 16)}
+	e.src = &source{inner: inner, noSeek: c.NoSeek, short: c.Short, seekFails: c.SeekFails, arrivals: make(chan chan struct{}, 16)}
 	e.store = subj.NewMem()
 	e.hooks = &masks.Hooks{}
 	set := []string{"OpenFileFS", "MkdirFS"}
@@ -400,6 +406,10 @@ func TestFaults(t *testing.T) {
 			Reopens:       rapid.IntRange(1, 3).Draw(rt, "reopens"),
 			Sticky:        rapid.IntRange(0, 2).Draw(rt, "sticky") == 0,
 			BrokenReopens: rapid.IntRange(0, 2).Draw(rt, "brokenreopens"),
+		}
+		if !c.NoSeek && rapid.IntRange(0, 4).Draw(rt, "seekfails") == 0 {
+			c.SeekFails = true
+			rec.Class("source-that-cannot-rewind")
 		}
 		if c.Size <= 2000 && rapid.IntRange(0, 3).Draw(rt, "shortreads") == 0 {
 			c.Short = rapid.SampledFrom([]int{100, 200, 511}).Draw(rt, "short")
